@@ -30,6 +30,20 @@ KNOWN = load_known(PROP)
 STACK = SHARD.get("stack", "pooled")
 CFG = SHARD.get("cfg", "default")
 
+class RaisingSerde:
+    """a caller-supplied serde that fails on marked values with exceptions that are neither OSError nor MemcacheError"""
+
+    def serialize(self, key, value):
+        if value == b"boom":
+            raise ZeroDivisionError("serializer failed")
+        return value, 0
+
+    def deserialize(self, key, value, flags):
+        if value == b"old":
+            raise LookupError("deserializer failed")
+        return value
+
+
 CONFIGS = {
     "default": {},
     "prefix": {"key_prefix": b"pf:"},
@@ -40,7 +54,17 @@ CONFIGS = {
     "compressed": {"serde": S.CompressedSerde(min_compress_len=1)},
     "timeouts": {"connect_timeout": 3, "timeout": 7, "no_delay": True},
     "legacy": {"serializer": lambda k, v: (v, 9), "deserializer": lambda k, v, f: (v, f)},
+    "raising": {"serde": RaisingSerde()},
 }
+
+# a first call that fails without any server or network fault, on the same object, before the compared call
+FIRSTS = [
+    lambda c: c.set(K, b"boom", noreply=False),       # serializer raises (config "raising"; plain store otherwise)
+    lambda c: c.get(K),                               # deserializer raises on the stored b"old" (config "raising", state 0)
+    lambda c: c.incr(K, 1, noreply=False),            # CLIENT_ERROR non-numeric (states 0 and 3)
+    lambda c: c.get("bad key"),                       # illegal key
+    lambda c: c.set("n", b"1", noreply=False),        # an ordinary successful call
+]
 
 K = "k1"
 VAL = {"default": b"val", "utf8": "vàl", "pickle": {"a": [1, 2]}, "compressed": "text" * 3}
@@ -105,7 +129,7 @@ def _build(stack, net, cfg):
     raise AssertionError(stack)
 
 
-def _run_one(stack, op_i, shape_i, A, state, cfg):
+def _run_one(stack, op_i, shape_i, A, state, cfg, first=None):
     vclock.fresh()
     servers, _ = ops.fresh_servers(1)
     srv = servers[ops.ADDR1]
@@ -126,11 +150,20 @@ def _run_one(stack, op_i, shape_i, A, state, cfg):
     net = NetSim(servers, None)
     net.expect_io_timeout = cfg.get("timeout", None)
     c = _build(stack, net, cfg)
-    net.begin_call(1)
+    r0 = None
+    if first is not None:
+        net.begin_call(1)
+        try:
+            r0 = ("ret", FIRSTS[first](c))
+        except Exception as e:
+            r0 = ("raise", type(e).__name__)
+    net.begin_call(2 if first is not None else 1)
     try:
         r = ("ret", OPS[op_i][1][shape_i](c, A))
     except Exception as e:
         r = ("raise", type(e).__name__)
+    if first is not None:
+        r = (r[0], (r0, r[1]))
     cmds = [repr(x) for x in srv.cmdlog]
     tmo = sorted(set((s.timeout_at_connect, s.timeout) for s in net.sockets if s.connected), key=repr)
     extra = list(net.violations) + [repr(e) for e in srv.protocol_errors]
@@ -180,6 +213,39 @@ def h_diff(op: int, shape: int, nr: int, state: int, preset: int, explicit: bool
         return ok(ref[0][0])
 
 
+def h_after(first: int, op: int, nr: int, state: int) -> int:
+    """
+    the compared call comes second: a first call on the same object failed (or not) without any server fault
+    pre: 0 <= first < len(FIRSTS)
+    pre: 0 <= op < len(OPS)
+    pre: 0 <= nr <= 2 and 0 <= state <= 2
+    post: _ != 0
+    """
+    first = concretize(first, 0, len(FIRSTS) - 1)
+    op = concretize(op, 0, len(OPS) - 1)
+    name = OPS[op][0]
+    if name == "dict" and STACK in ("hash", "hashp"):
+        return skip("HashClient-offers-no-dict-style-access")
+    ex, fl, df, dl = PRESETS[0]
+    A = {"nr": (None, True, False)[concretize(nr, 0, 2)], "expire": ex, "flags": fl, "default": df, "delta": dl,
+         "cas": "1", "val": VAL.get(CFG, b"val"), "explicit": False}
+    state = concretize(state, 0, 2)
+    with notrace():
+        B.RECV_SIZE = 4096
+        cfg = CONFIGS[CFG]
+        ref = _run_one("client", op, 0, A, state, cfg, first)
+        got = _run_one(STACK, op, 0, A, state, cfg, first)
+        if ref[3] or got[3]:
+            return viol(STACK, CFG, "first", first, name, "monitor:", (ref[3] + got[3])[0])
+        if ref[1] != got[1]:
+            return viol(STACK, CFG, "after first call", first, ref[0][1][0], ":", name, "state", state, ": Client sent", ref[1],
+                        "but", STACK, "sent", got[1])
+        if ref[0] != got[0]:
+            return viol(STACK, CFG, "after first call", first, ":", name, "state", state, ": Client ->", ref[0], "but", STACK,
+                        "->", got[0])
+        return ok(ref[0][0])
+
+
 def shards(tier):
     out = []
     thorough = tier == "thorough"
@@ -190,6 +256,9 @@ def shards(tier):
             if not thorough and st in ("hashp", "retrying") and cfg not in ("default", "utf8", "timeouts"):
                 continue
             out.append(dict(fn="h_diff", timeout=2400 if thorough else 600, shard=dict(stack=st, cfg=cfg)))
+    for st in ("pooled", "hash", "hashp"):
+        for cfg in ("raising", "default") + (("prefix", "pickle") if thorough else ()):
+            out.append(dict(fn="h_after", timeout=600, shard=dict(stack=st, cfg=cfg)))
     return out
 
 
@@ -199,8 +268,10 @@ BOUNDS = {
              "stored-through-the-stack) x 4 argument presets over expire {0,30,-1}, flags {None,0,77}, default "
              "{None,0,'dflt'}, delta {1,0,2^64-1}, all chosen by symbolic indices; configurations {default, key_prefix, default_noreply=False, "
              "utf8+unicode keys, pickle serde, timeouts+no_delay} on PooledClient and HashClient(1 server), a subset on "
-             "pooled HashClient and RetryingClient(Client)",
-    "thorough": "all 9 configurations (adds str prefix, compressed serde, legacy serializer functions) on all 4 stacks",
+             "pooled HashClient and RetryingClient(Client); two-call sequences: one of 5 first calls (serializer raising, "
+             "deserializer raising, CLIENT_ERROR, illegal key, success) then any operation x noreply x 3 states on "
+             "PooledClient / HashClient / pooled HashClient with a raising caller-supplied serde and the default one",
+    "thorough": "all 10 configurations (adds str prefix, compressed serde, legacy serializer functions) on all 4 stacks",
 }
 OUTSIDE = "multi-server HashClient (C12), failing servers (C13/C07), RetryingClient with failing calls (C17)"
 ASSUMPTIONS = ["each stack runs against its own RefServer prepared in the same state; command streams are compared after "
